@@ -41,10 +41,11 @@ def main():
                 if not fails:
                     ok = True
                     break
-                pk = sorted(set(re.findall(r"^FAIL\s+github.com/yandex/pandora/(tests/\S+)", out, re.M)))
-                other = [l for l in fails if l.startswith("FAIL\t") and "/tests/" not in l]
+                pk = sorted(set(re.findall(r"^FAIL\s+github.com/yandex/pandora/(\S+)", out, re.M)))
+                other = []
                 if pk and not other:
-                    # only fixed-port packages failed (port collisions with other suite runs): run those alone
+                    # packages that failed in the full run (fixed-port packages colliding with other suite runs, sleep-based
+                    # tests on a loaded machine): run those alone; a test the change really breaks fails here every time
                     good = True
                     for q in pk:
                         for again in range(3):
